@@ -247,9 +247,13 @@ def rule_bound(ctx) -> None:
             continue
         if isinstance(first, ast.Name) and first.id == fn.params[0]:
             # identity branch: needs norm <= cap
-            normn = [d.name for d in rd.all_defs if d.value is not None and isinstance(d.value, ast.Call) and call_tail(d.value) in ("sqrt", "hypot")]
+            normn = [d.name for d in rd.all_defs if d.value is not None and any(isinstance(z, ast.Call) and call_tail(z) in ("sqrt", "hypot") for z in ast.walk(d.value))]
+            # `peak == 0.0` with peak = max(|d|) over all components also means norm == 0
+            peaks = [d.name for d in rd.all_defs if d.value is not None and isinstance(d.value, ast.Call) and dotted(d.value.func) == "max" and d.value.args
+                     and isinstance(d.value.args[0], (ast.GeneratorExp, ast.ListComp)) and isinstance(d.value.args[0].elt, ast.Call) and dotted(d.value.args[0].elt.func) == "abs"]
             capn = [d.name for d in rd.all_defs if d.value is not None and src(d.value) in (f"float({fn.params[1]})", fn.params[1])] + [fn.params[1]]
-            ok = any(((f"{a} <= {b} or {a} == 0.0", True) in facts) or _le_fact(facts, a, b) for a in normn for b in capn)
+            ok = any(((f"{a} <= {b} or {a} == 0.0", True) in facts) or _le_fact(facts, a, b) for a in normn for b in capn) or \
+                any((f"{pk} == 0.0", True) in facts or (f"{pk} == 0", True) in facts for pk in peaks)
             ctx.check(ok, "C03.BOUND", f"{fn.qual}/identity-branch", fn.loc(r.ast), "input returned unscaled only where norm <= cap (or norm == 0)",
                       "the unscaled list is returned without the norm <= cap test: the L2 cap is not enforced")
             continue
@@ -269,7 +273,7 @@ def rule_bound(ctx) -> None:
                     if uv is not None and isinstance(uv[0], ast.BinOp) and isinstance(uv[0].op, ast.Div):
                         num, den = uv[0].left, uv[0].right
                         den_def = rd.unique_value(den.id, uv[1]) if isinstance(den, ast.Name) else None
-                        if den_def is not None and isinstance(den_def[0], ast.Call) and call_tail(den_def[0]) in ("sqrt", "hypot"):
+                        if den_def is not None and any(isinstance(z, ast.Call) and call_tail(z) in ("sqrt", "hypot") for z in ast.walk(den_def[0])):
                             # numerator is the cap; scaled branch reached only where norm > cap
                             if any(_gt_fact(facts, den.id, src(num)) or ((f"{den.id} <= {src(num)} or {den.id} == 0.0", False) in facts) for _ in [0]):
                                 scale_ok = True
